@@ -150,10 +150,15 @@ def fam_split(ctx, rng):
         c = Polyline3D([P3(v) for v in vs])
         mid = c.segments[rng.randrange(len(c.segments))].point_at(rng.uniform(0.2, 0.8))
         pl = Plane(V3(G.rvec3(rng, 1)), P3((G.dy(mid.x), G.dy(mid.y), G.dy(mid.z))))
+        through = rng.choice([None, None, None, 'first', 'last', 'inner'])
+        if through:
+            # the plane passes EXACTLY through a vertex of the polyline (its origin is that vertex): first, last or an inner one
+            vx = c.vertices[{'first': 0, 'last': -1, 'inner': rng.randrange(1, len(vs) - 1)}[through]]
+            pl = Plane(V3(G.rational_frame(rng)[2]), vx)
         parts = c.split_with_plane(pl)
-        desc = {'polyline': c.to_dict(), 'plane': pl.to_dict()}
-        ctx.count('split.pline3', key=len(parts), sample=desc)
-        check_pieces(ctx, 'split:pline3', parts, c, desc, pl)
+        desc = {'polyline': c.to_dict(), 'plane': pl.to_dict(), 'plane_through_vertex': through}
+        ctx.count('split.pline3', key=(len(parts), through), sample=desc)
+        check_pieces(ctx, 'split:pline3' + (':through_%s_vertex' % through if through else ''), parts, c, desc, pl)
         # one piece more than there are proper crossings (exact side test of the vertices; skipped when a vertex is near the plane)
         fn, fo = X.fpt(pl.n), X.fpt(pl.o)
         sd = [X.dot(fn, X.sub(X.fpt(v), fo)) for v in c.vertices]
